@@ -46,6 +46,8 @@ var c15Pure = map[string]string{
 }
 
 func runC15(c *eng.Ctx) {
+	c.Rule("R15.9", "K5")
+	ruleEnforcerReadsThePolicyFile(c)
 	p := c.P
 	pur := eng.NewPurity(c)
 	for k, v := range c15Pure {
